@@ -30,9 +30,9 @@ def var_xml(decl: Dict[str, Any]) -> str:
     if decl.get("min") is not None or decl.get("max") is not None:
         out += "<allowedValueRange>"
         if decl.get("min") is not None:
-            out += f"<minimum>{decl['min']}</minimum>"
+            out += f"<minimum>{escape(str(decl['min']))}</minimum>"
         if decl.get("max") is not None:
-            out += f"<maximum>{decl['max']}</maximum>"
+            out += f"<maximum>{escape(str(decl['max']))}</maximum>"
         out += "</allowedValueRange>"
     return out + "</stateVariable>"
 
@@ -161,6 +161,8 @@ EVENT_NS = "urn:schemas-upnp-org:event-1-0"
 def render_body(body, pad: str = "", style: int = 0) -> str:
     """body: [{"p": bool, "kids": [[ns, name, text], ...]}, ...] -> property-set XML.
     style 0: `e:` prefix for the event namespace; style 1: other prefix name."""
+    if body == "#":
+        return "<e:propertyset xmlns:e=\"urn:schemas-upnp-org:event-1-0\"><e:property><A>1</A>" + pad
     pre = ["e", "ev"][style % 2]
     out = [f'<?xml version="1.0"?><{pre}:propertyset xmlns:{pre}="{EVENT_NS}">']
     q = 0
@@ -187,6 +189,8 @@ def render_body(body, pad: str = "", style: int = 0) -> str:
 def body_tok(body) -> str:
     from harness.common import tok_str
 
+    if body == "#":       # a body that is not XML
+        return "#"
     if not body:
         return "~"
     return ";".join(("P" if el["p"] else "X") + "|" + ",".join(f"{tok_str(ns)}:{tok_str(nm)}:{tok_str(tx)}" for ns, nm, tx in el["kids"])
@@ -199,16 +203,49 @@ def opt_tok(s) -> str:
     return "!" if s is None else tok_str(s)
 
 
+FLOAT_TYPES = {"r4", "r8", "number", "fixed.14.4", "float"}
+
+
 def decl_lines(svc_vars) -> List[str]:
+    """`decl <svc> <name> <dtype> <range 0|1> <min|~> <max|~> <allowed ~|hex,…>` — the declaration texts as they stand in the SCPD"""
     from harness.common import tok_str
 
     out = [f"nsvc {len(svc_vars)}"]
     for i, ds in enumerate(svc_vars):
         for d in ds:
             al = ",".join(tok_str(a) for a in d.get("allowed") or []) or "~"
-            mn = "!" if d.get("min") is None else str(d["min"])
-            mx = "!" if d.get("max") is None else str(d["max"])
-            out.append(f"decl {i} {tok_str(d['name'])} {tok_str(d['type'])} {mn} {mx} {al}")
+            has_range = d.get("min") is not None or d.get("max") is not None
+            mn = "~" if d.get("min") is None else tok_str(str(d["min"]))
+            mx = "~" if d.get("max") is None else tok_str(str(d["max"]))
+            out.append(f"decl {i} {tok_str(d['name'])} {tok_str(d['type'])} {1 if has_range else 0} {mn} {mx} {al}")
+    return out
+
+
+def fdecl_lines(svc_vars, texts) -> List[str]:
+    """the float oracle of the case: what Python's float() gives for every text a float-typed variable can meet (declared
+    minimum / maximum / allowed values and every text sent under that variable's name)"""
+    from harness.c08 import tok_float
+    from harness.common import tok_str
+
+    seen = {}
+    fnames = set()
+    for ds in svc_vars:
+        for d in ds:
+            if d["type"] in FLOAT_TYPES:
+                fnames.add(d["name"])
+                for t in [d.get("min"), d.get("max")] + list(d.get("allowed") or []):
+                    if t is not None:
+                        seen[str(t)] = None
+    for name, text in texts:
+        if name in fnames:
+            seen[text] = None
+    out = []
+    for t in seen:
+        try:
+            r = tok_float(float(t))
+        except ValueError:
+            r = "!"
+        out.append(f"fdecl parse {tok_str(t)} {r}")
     return out
 
 
@@ -237,30 +274,17 @@ def install_clock() -> None:
     client.datetime = FakeDT
 
 
-def val_tok(v) -> str:
-    from harness.common import tok_str
-
-    if v is None:
-        return "!"
-    if isinstance(v, bool):
-        return "bT" if v else "bF"
-    if isinstance(v, int):
-        return f"i{v}"
-    if isinstance(v, str):
-        return "s" + tok_str(v)
-    return "?" + type(v).__name__
-
-
 def state_line(i: int, svc) -> str:
     import datetime as _dt
 
+    from harness.c08 import tok_val
     from harness.common import tok_str
 
     parts = []
     for name, sv in svc.state_variables.items():
         ua = sv.updated_at
         up = "!" if ua is None else str(int((ua - _dt.datetime(2000, 1, 1, tzinfo=_dt.timezone.utc)).total_seconds()))
-        parts.append(f"{tok_str(name)}:{val_tok(sv.value)}:{up}")
+        parts.append(f"{tok_str(name)}={tok_val(sv.value)}={up}")
     return f"st {i} " + (",".join(parts) or "~")
 
 
